@@ -146,6 +146,19 @@ def _to_sym_const(v):
     return v
 
 
+class NpConst(Spec):
+    """a concrete numpy array"""
+
+    def __init__(self, values):
+        self.values = values
+
+    def sym(self, B, name):
+        return NDArr(_to_sym_const(list(self.values)))
+
+    def desc(self, name, asg):
+        return {'k': 'ndarray', 'v': list(self.values)}
+
+
 class RealVec(Spec):
     """numpy array of n reals"""
 
